@@ -27,6 +27,7 @@ pub fn run(ctx: &Ctx) {
         let shape = format!("words={},pass#{pi}{},layout={lname}", words.len(), if pass == norm { "" } else { "(nfkd-changes)" });
         let replay = json!({"sweep": "seed-product", "index": i, "entry": "Mnemonic::seed", "phrase": text, "passphrase": pass, "passphrase_utf8_hex": explore::hex(pass.as_bytes()), "reference_seed": explore::hex(&want)});
         ctx.sample("seed-product", || replay.clone());
+        ctx.emit_cli("seed-product", i, 2, || { let c = refmodel::secp::Curve::new(); let h = refmodel::grammar::HARD; let k = refmodel::bip32::derive(&c, &want, &[44 | h, 60 | h, h, 0, 0]).unwrap().k; json!({"kind": "seed", "shape": shape, "phrase": text, "passphrase": pass, "key0": k.to_hex64()}) });
         match guard(|| Mnemonic::from_phrase(&text).map(|m| *m.seed(pass))) {
             Err(p) => { ctx.eval(format!("{shape}:panic")); ctx.panic_violation(format!("{P}:seed:{shape}:panic@{}", panic_site(&p)), format!("seed computation panics: {p}"), replay) }
             Ok(Err(e)) => { ctx.eval(format!("{shape}:rejected")); ctx.violation(format!("{P}:seed:{shape}:phrase-rejected"), format!("valid phrase rejected: {e}"), replay) }
